@@ -53,6 +53,20 @@ def bob(workdir, args, env=None, crash_env=None, timeout=240):
     return rc, txt
 
 
+def read_trace(path):
+    """{workspace path: [micro-op codes in order]} from a BOBV_TRACE_FILE (vlib/crashbob.py)"""
+    out = {}
+    try:
+        with open(path) as f:
+            for line in f:
+                code, _, p = line.rstrip("\n").partition("\t")
+                out.setdefault(p, []).append(int(code))
+        os.unlink(path)
+    except OSError:
+        pass
+    return out
+
+
 DEC_RE = re.compile(r"^\s*(CHECKOUT|BUILD|PACKAGE|PRUNE|UPDATE|ATTIC)\s+(.*)$")
 
 
